@@ -298,6 +298,35 @@ def run(ctx):
             if nd.OTHER_SEED.search(n):
                 ctx.violation("R20.4", "%s/%s" % (f.short, n), "nondeterministic source %s in library code" % n, b.site(bi))
     ctx.floor("R20.2", "time_source_sites", n_time, 1)
+    # ---- R20.5 no process-wide mutable state: a counter or table that outlives one conversion makes its result depend on
+    # what the process converted before
+    ctx.rule("R20.5", "library code keeps no process-wide mutable state (no `static` with interior mutability other than initialise-once cells): a conversion's result may not depend on earlier conversions in the same process")
+    n_static = 0
+    for f in F.fns.values():
+        if f.crate.endswith(".bin") or not f.id.startswith(("layout21", "gds21", "lef21")):
+            continue
+        for blk in f.body["blocks"] if f.body else ():
+            ops = []
+            for st in blk["st"]:
+                if st["k"] == "assign":
+                    rv = st["rv"]
+                    ops += [rv[k] for k in ("o", "l", "r") if k in rv and isinstance(rv[k], dict)]
+                    if rv["k"] == "agg":
+                        ops += rv["ops"]
+            t = blk["term"]
+            if t["k"] == "call":
+                ops += t["args"]
+            for o in ops:
+                c = o.get("c") if isinstance(o, dict) else None
+                if not c or "static" not in c:
+                    continue
+                n_static += 1
+                tys = (c.get("ty") or {}).get("s", "")
+                if re.search(r"Atomic|Mutex|RwLock|RefCell|(^|[^a-zA-Z])Cell<|UnsafeCell|ThreadLocal|LocalKey", tys) and not re.search(r"Lazy|OnceCell|OnceLock|LazyLock|Once\b", tys):
+                    key = "%s/%s" % (f.short, c["static"].split("::")[-1])
+                    ctx.violation("R20.5", key, "%s uses the process-wide mutable static %s (%s): what a conversion produces then depends on how many conversions the process ran before it" % (f.short, c["static"], tys), "%s:%d" % (blk["sp"][0], blk["sp"][1]), key)
+    ctx.count("static_references", n_static)
+    ctx.ok("R20.5", "workspace", "%d references to statics inspected, none mutable process-wide state" % n_static)
     # callers of date constructors: must be Default/new constructors in gds21 (the documented exception), or converters
     # that build a *new* GDSII library (GdsLibrary::new / GdsStruct::new).
     date_fns = {f.id for f in F.fns.values() if re.search(r"GdsDateTimes?$", (f.output or {}).get("s", "")) and f.crate == "gds21.lib"}
